@@ -2,7 +2,7 @@
 # usage: runall.sh <tier> [ids...]  -> work/t/runall_<tier>.log  (one line per check: id exit seconds)
 tier=${1:-quick}; shift
 ids=${@:-C01 C02 C03 C04 C05 C06 C07 C08 C09 C10 C11 C12 C13 C14 C15 C16 C17 C18 C19 C20}
-log=/verif/work/t/runall_$tier.log
+log=/verif/work/t/runall_$tier$RUNALL_TAG.log
 : > $log
 for id in $ids; do
   t0=$(date +%s)
